@@ -179,6 +179,26 @@ func c13EFixedWorlds(base string) []c13ENamedWorld {
 		m.cands = []int{cand}
 		w.profiles = []c13EProfile{{scale: 1, mappings: []c13EMapping{m}, samples: w.samplesOver(a, 0, bias, []int64{7, 2, 5}, true)}}
 	}
+	// 4b. PT_LOAD entries in ascending vaddr order whose file offsets do not ascend (round 6)
+	for li, lay := range c13ReorderedLayouts() {
+		if lay.etype != elf.ET_DYN {
+			continue
+		}
+		lay.secs = nil
+		for _, firstPage := range []bool{false, true} {
+			w := mk(fmt.Sprintf("reordered-%d-%v", li, firstPage))
+			a := w.addFile("bin/reord", lay, "reord", 8, c13EIDa)
+			if a < 0 {
+				continue
+			}
+			bias := uint64(0x55d0c4e00000)
+			m := w.textMapping(a, bias, false, w.files[a].path, c13EIDa)
+			if firstPage {
+				m.limit = m.start + c13Page
+			}
+			w.profiles = []c13EProfile{{scale: 1, mappings: []c13EMapping{m}, samples: w.samplesOver(a, 0, bias, []int64{3, 1, 4}, true)}}
+		}
+	}
 	// 5. a tiny object whose text and data share file page 0: all mappings of the process listed,
 	//    the data mapping first; samples in text and one in data
 	{
